@@ -371,3 +371,38 @@ void h_merge_body(void)
     VERIF_CANARY;
 }
 #endif
+
+/* ------------------------------------------------------------ Block::findMinLMBetween / split_path (completeness fragment)
+ * IncSolver::satisfy flags a constraint unsatisfiable when splitBetween -> findMinLMBetween throws "no split point".  For a feasible
+ * system that must not happen when the two variables are joined DIRECTLY by an active inequality: that constraint is the split point. */
+#if defined(JOB_findMinLM)
+/* BOUNDED plain harness (goto-instrument --dfcc with loop contracts ran out of memory on split_path): 4 variables, lv with up to 2 in- and
+ * up to 3 out-constraints, arbitrary contents */
+/* assumed (tree-ness of a block's active constraints): searching on through any OTHER constraint does not reach the target */
+_Bool w_rec_split_path(void *b, void *r, void *v, void *u) { return 0; }
+/* recomputing the Lagrange multipliers changes lm fields only; their values are arbitrary here */
+void w_recompute_lm(void *b) { }
+void *w_findMinLM(void *b, void *lv, void *rv);
+void h_findMinLM(void)
+{
+  struct Block blk; struct Variable var[4]; struct Constraint in[2], out[3]; void *ind[2], *outd[3], *varsd[4]; struct vec vars;
+  size_t nin, nout, J;
+  __CPROVER_assume(nin <= 2 && nout >= 1 && nout <= 3 && J < nout);
+  for (int i = 0; i < 4; ++i) varsd[i] = &var[i];
+  vars.d = varsd; vars.n = 4; vars.cap = 4; blk.vars = &vars;
+  struct Variable *lv = &var[0], *rv = &var[1];
+  for (int i = 0; i < 2; ++i) { size_t a, b; __CPROVER_assume(a < 4 && b < 4); in[i].left = &var[a]; in[i].right = &var[b]; ind[i] = &in[i]; }
+  for (int i = 0; i < 3; ++i) { size_t a, b; __CPROVER_assume(a < 4 && b < 4); out[i].left = &var[a]; out[i].right = &var[b]; outd[i] = &out[i]; }
+  lv->in.d = ind; lv->in.n = nin; lv->in.cap = 2; lv->out.d = outd; lv->out.n = nout; lv->out.cap = 3;
+  /* the direct connection: out-constraint J of lv is an active inequality lv -> rv, rv in this block */
+  __CPROVER_assume(out[J].left == (void *)lv && out[J].right == (void *)rv && out[J].active && !out[J].equality && rv->block == &blk);
+  /* tree: no second active connection between lv and rv */
+  for (size_t i = 0; i < 2; ++i) __CPROVER_assume(!(in[i].left == (void *)rv && in[i].active));
+  for (size_t i = 0; i < 3; ++i) if (i != J) __CPROVER_assume(!(out[i].right == (void *)rv && out[i].active));
+  verif_thrown = 0;
+  void *m = w_findMinLM(&blk, lv, rv);
+  __CPROVER_assert(!verif_thrown, "SPEC a direct active inequality between the two variables is a split point: no 'no split point' exception");
+  __CPROVER_assert(m == (void *)&out[J], "SPEC the direct active inequality is the constraint returned");
+  VERIF_CANARY;
+}
+#endif
